@@ -115,6 +115,47 @@ Section C08.
     exact (resolve_state_exact c_versions c_requirements c_matching marker_true has_pre constraint_ok match_pre ver_lt root lt I T S fuel st H).
   Qed.
 
+  (* ---- a reported conflict is a real one (part of: failure only when no assignment exists) ----
+     When mergeIntoCriterion answers with the requirements-conflict error (the error that makes a
+     candidate be rejected, and, for a direct dependency, the whole resolution fail), no version is
+     admitted by the criterion's requirements together with the new one and is not an
+     incompatibility.  Same order hypothesis as above.
+     MISSING for the clause of the property: that backtracking explores every assignment before
+     `resolution impossible` is reported after rounds of pinning (completeness of the search). *)
+  Theorem C08_conflict_sound_partial : forall (lt : vkey -> vkey -> Prop) st rq par,
+    (forall a, ~ lt a a) -> (forall a b c, lt a b -> lt b c -> lt a c) ->
+    (forall pre r l, gm c_versions c_matching has_pre constraint_ok match_pre ver_lt root pre r = Ok l ->
+                     StronglySorted lt l) ->
+    exact_state c_versions c_matching has_pre constraint_ok match_pre ver_lt root st ->
+    merge_into_criterion c_versions c_matching has_pre constraint_ok match_pre ver_lt root st rq par = Err EConflict ->
+    let c := crit_get_or_empty (criteria_of st) (rq_name rq) in
+    forall v, ~ (allowed c_versions c_matching has_pre constraint_ok match_pre ver_lt root (reqs_of c ++ [rq]) v /\
+                 ~ In v (c_incompat c)).
+  Proof.
+    intros lt st rq par I T S.
+    exact (merge_conflict_sound c_versions c_requirements c_matching has_pre constraint_ok match_pre ver_lt root lt I T S st rq par).
+  Qed.
+
+  (* the graph-level error raised while the direct dependencies are merged: at the requirement d where
+     it stops, no version of d's package is admitted by d together with the direct requirements
+     merged before it *)
+  Theorem C08_initial_error_sound_partial : forall (lt : vkey -> vkey -> Prop) deps,
+    (forall a, ~ lt a a) -> (forall a b c, lt a b -> lt b c -> lt a c) ->
+    (forall pre r l, gm c_versions c_matching has_pre constraint_ok match_pre ver_lt root pre r = Ok l ->
+                     StronglySorted lt l) ->
+    init_criteria c_versions c_matching has_pre constraint_ok match_pre ver_lt root empty_state deps = Err EImpossible ->
+    exists pre d post st1,
+      deps = pre ++ d :: post /\
+      init_criteria c_versions c_matching has_pre constraint_ok match_pre ver_lt root empty_state pre = Ok st1 /\
+      let c := crit_get_or_empty (criteria_of st1) (rq_name d) in
+      forall v, ~ (allowed c_versions c_matching has_pre constraint_ok match_pre ver_lt root (reqs_of c ++ [d]) v /\
+                   ~ In v (c_incompat c)).
+  Proof.
+    intros lt deps I T S.
+    apply (init_impossible_sound c_versions c_requirements c_matching has_pre constraint_ok match_pre ver_lt root lt I T S deps empty_state).
+    intros n c G. discriminate.
+  Qed.
+
   (* ---- the clauses of the property ---- *)
 
   (* exactly one version per package *)
@@ -216,6 +257,8 @@ Print Assumptions C08_backtrack_terminates.
 Print Assumptions C08_filter_slice_terminates.
 Print Assumptions C08_has_route_terminates.
 Print Assumptions C08_candidates_exact_partial.
+Print Assumptions C08_conflict_sound_partial.
+Print Assumptions C08_initial_error_sound_partial.
 Print Assumptions C08_graph_total.
 Print Assumptions C08_one_version.
 Print Assumptions C08_root_fixed.
@@ -306,6 +349,17 @@ Example C08_candidates_exact_inhabited :
   exists st, resolve_state_fuel (fun _ => Err 0) (fun _ => Ok []) cm (fun _ _ => Ok true) (fun _ => true) (fun _ => true)
                (fun _ _ => false) (fun _ _ => false) root 10 = Ok st.
 Proof. exact example_order_hypotheses. Qed.
+
+(* the hypotheses of the two conflict-soundness statements are satisfiable, with the error occurring *)
+Example C08_initial_error_inhabited :
+  let cm := fun _ : vkey => Ok ([] : list vkey) in
+  let cr := fun _ : vkey => Ok [mkrq (bs "a") 2 (bs "") []] in
+  let root := mkvk (bs "r") 1 (bs "1") in
+  (forall pre rq l, gm (fun _ => Err 0) cm (fun _ => true) (fun _ => true) (fun _ _ => false) (fun _ _ => false) root pre rq = Ok l ->
+                    StronglySorted ex_lt l) /\
+  init_criteria (fun _ => Err 0) cm (fun _ => true) (fun _ => true) (fun _ _ => false) (fun _ _ => false) root
+                empty_state [mkrq (bs "a") 2 (bs "") []] = Err EImpossible.
+Proof. exact example_initial_conflict. Qed.
 
 (* Non-vacuity: a well-formed client (answers of the Go LocalClient for a seven-package universe
    with a false marker, an extra and a conflict) on which the resolution backtracks once and
